@@ -1,13 +1,13 @@
 SPECIFICATION Spec
 CONSTANTS MaxDepth = 3
-  Families <- FamT_F2
+  Families <- FamMFShare
   StoreByCopy = TRUE
   TailKeepsSets = TRUE
   SplitContinues = TRUE
   SkipEmpty = TRUE
   SplitCachesExport = FALSE
   SrcFRepass = TRUE
-  MFRunCopies = TRUE
+  MFRunCopies = FALSE
   AlterApplied = FALSE
-INVARIANT Emitted
+PROPERTY RunKeepsStatic
 CHECK_DEADLOCK FALSE
